@@ -1503,6 +1503,10 @@ class Kconfig(object):
                         # rstrip()'d, so blank lines show up as "" here.
                         if line and not line.lstrip().startswith("#"):
                             log.warn(f"{escape(filename)}:{linenr}: ignoring malformed line '{line}'")
+                        if line:
+                            # The pragma only applies to an assignment on the very next line; a menu or comment
+                            # titled "default:" is written as a "# default:" line as well
+                            value_is_default = False
                         continue
 
                     name = match.group(1)
